@@ -39,6 +39,8 @@ def connected(f, a, b):
 
 
 def run(m, rep, tier):
+    from .. import canaries
+    canaries.run(m, rep, ('handoff',))
     decls = header_functions(m, ('slist.h',))
     n1 = rep.rule('N1', 'functions documented to return NULL on an empty list can return NULL', floor=3)
     listrules.doc_null(m, n1, decls)
